@@ -136,6 +136,24 @@ def random_tree(r, kind='html', max_nodes=7):
         return el
 
     root = make(0)
+    # twins: bs4 Tags compare and hash structurally, so caches keyed on a Tag confuse distinct nodes with identical
+    # markup.  About half of the trees get an exact copy of one of their sub-trees grafted somewhere else.
+    import copy as _copy
+    if r.random() < 0.55:
+        inner = [t for t in root.find_all(True)]
+        if inner:
+            src = r.choice(inner)
+            for t in [src] + src.find_all(True):
+                if r.random() < 0.7:
+                    t.attrs.pop('id', None)
+            hosts = [t for t in [root] + inner if t is not src and src not in t.parents and t not in src.find_all(True)]
+            if hosts:
+                host = r.choice(hosts)
+                twin = _copy.copy(src)
+                if r.random() < 0.5:
+                    host.append(twin)
+                else:
+                    host.insert(0, twin)
     if kind == 'detached':
         return root, root
     lead = r.random()
